@@ -76,6 +76,13 @@ def pairwise(ctx, label, files, o, replay_extra=None):
             if remain_indices(ou, e["unint"]) is None:
                 ctx.violation("remainder-not-verbatim", "%s interpretation: the uninterpreted options left on %s are not a subsequence of the original ones" % (mode, el),
                               dict(rep, mode=mode, element=el, original=ou, left=e["unint"]))
+        # when every option of an element is kept, nothing may have been stored on it
+        for el, e in elems_by_name(r).items():
+            ou = (orig.get(el) or {"unint": []})["unint"]
+            if ou and len(e["unint"]) == len(ou) and not empty_tree(e["tree"]):
+                key, what = classify_half_hex(e["unint"])
+                ctx.violation(key, "%s interpretation: %s (every option of %s is kept uninterpreted, yet its options message is not empty)" % (mode, what, el),
+                              dict(rep, mode=mode, element=el, options_after=e["tree"]))
     if st.get("ok") and le.get("ok"):
         se, lel = elems_by_name(st), elems_by_name(le)
         for el in sorted(set(se) | set(lel)):
@@ -101,6 +108,24 @@ def classify_half(kept):
     return "failed-option-value-stored", "an option rejected for its target type is stored and also kept uninterpreted"
 
 
+def classify_half_hex(unint):
+    """the same classes, from the wire form of the kept options (UninterpretedOption: 2 = name parts, 8 = aggregate value)"""
+    paths, lits = False, False
+    for h in unint:
+        b = bytes.fromhex(h)
+        i, parts = 0, 0
+        while i < len(b) and b[i] == 0x12:
+            parts += 1
+            i += 2 + b[i + 1]
+        paths = paths or parts > 1
+        lits = lits or (i < len(b) and b[i] == 0x42)
+    if paths:
+        return classify_half([((1, 2), ("int", 0))])
+    if lits:
+        return classify_half([((1,), ("msg", []))])
+    return classify_half([((1,), ("int", 0))])
+
+
 def real_files():
     """files of the repository's test data, for the pairwise oracle only: (label, files map, target)"""
     out = []
@@ -123,6 +148,14 @@ def real_files():
 
 
 HAND = [
+    ("failing path, linked", 'syntax = "proto2";\nimport "google/protobuf/descriptor.proto";\nmessage O { optional int32 a = 1; optional O sub = 2; }\n'
+     'extend google.protobuf.MessageOptions { optional O foo = 50001; }\nmessage M { option (foo).sub.a = "x"; }\n'),
+    ("failing literal, linked", 'syntax = "proto2";\nimport "google/protobuf/descriptor.proto";\nmessage O { optional int32 a = 1; repeated int32 r = 3; }\n'
+     'extend google.protobuf.MessageOptions { optional O foo = 50001; }\nmessage M { option (foo) = { a: 1 r: [1, 2, "x"] }; }\n'),
+    ("target type, linked", 'syntax = "proto2";\nimport "google/protobuf/descriptor.proto";\n'
+     'extend google.protobuf.MessageOptions { optional int32 onfield = 50001 [targets = TARGET_TYPE_FIELD]; }\nmessage M { option (onfield) = 1; }\n'),
+    ("failing path below a standard option, unlinked", 'edition = "2023";\nimport "google/protobuf/go_features.proto";\n'
+     'message M { option features.(pb.go).nosuch = true; int32 f = 1 [feature_support.nosuch = 1]; }\n'),
     ("pseudo-options", 'syntax = "proto2";\nimport "google/protobuf/descriptor.proto";\nextend google.protobuf.FieldOptions { optional int32 fx = 50001; }\n'
      'enum E { A = 0; B = 1; }\nmessage M { optional string s = 1 [default = "x\\001y", json_name = "S", (fx) = 3, deprecated = true];\n'
      ' optional E e = 2 [default = B, (fx) = 4]; optional double d = 3 [default = -inf, json_name = "dd"]; repeated int32 p = 4 [packed = true]; }\n'),
@@ -142,6 +175,18 @@ def run(ctx):
                 "failing) interpreted by InterpretOptions, InterpretOptionsLenient and InterpretUnlinkedOptions; plus the repository's own "
                 "option test files and hand-written files with pseudo-options and features (pairwise oracle only); distinct = distinct "
                 "(schema, element kind, statements) or file; non-trivial = at least one option statement")
+    # the repository's own files and hand-written files with pseudo-options and features: pairwise oracle
+    extra = [(lab, {"t.proto": txt}, "t.proto") for lab, txt in HAND] + real_files()
+    eouts = ctx.impl("options", [{"mode": "interp", "files": fs, "target": t} for _, fs, t in extra], shards=min(NCPU, 8))
+    used = 0
+    for (lab, fs, t), o in zip(extra, eouts):
+        if "orig" not in o or o.get("strictm", {}).get("errclass") == "link":
+            continue
+        used += 1
+        ctx.count(("file", lab), True, "file:strict-%s" % ("ok" if o["strictm"].get("ok") else "rejects"))
+        pairwise(ctx, lab, {t: fs[t]}, o, {"file": lab})
+    ctx.extra["real_files_compared"] = used
+
     eks = list(ELEMENTS)
     cases = []
     fixed = {ek: fixed_schema(ctx, ek) for ek in eks}
@@ -268,14 +313,3 @@ def run(ctx):
                            {m: o[m] for m in ("strictm", "lenient", "unlinked")})
     ctx.extra["panics_observed"] = panics
 
-    # the repository's own files and hand-written files with pseudo-options and features: pairwise oracle
-    extra = [(lab, {"t.proto": txt}, "t.proto") for lab, txt in HAND] + real_files()
-    eouts = ctx.impl("options", [{"mode": "interp", "files": fs, "target": t} for _, fs, t in extra], shards=min(NCPU, 8))
-    used = 0
-    for (lab, fs, t), o in zip(extra, eouts):
-        if "orig" not in o or o.get("strictm", {}).get("errclass") == "link":
-            continue
-        used += 1
-        ctx.count(("file", lab), True, "file:strict-%s" % ("ok" if o["strictm"].get("ok") else "rejects"))
-        pairwise(ctx, lab, {t: fs[t]}, o, {"file": lab})
-    ctx.extra["real_files_compared"] = used
